@@ -48,7 +48,7 @@ def damage_strategy():
     return st.one_of(
         st.tuples(st.just('del-file'), st.sampled_from(FILE_ITEMS)),
         st.tuples(st.just('del-file'), st.sampled_from(FILE_ITEMS)),
-        st.tuples(st.just('resize'), st.sampled_from(BINARY_ITEMS), st.sampled_from([-299, -1, 1, 50])),
+        st.tuples(st.just('resize'), st.sampled_from(BINARY_ITEMS), st.sampled_from([-299, -1, 1, 50, -10**6])),  # -10**6: truncate to 0 bytes
         st.tuples(st.just('stray'), st.sampled_from(['top', 'leaf', 'new1', 'new2', 'leaf-of-deleted']), st.sampled_from(['stray.txt', 'dead.val', 'x.tmp'])),
         st.tuples(st.just('emptydir'), st.sampled_from(['e1', 'e1/e2', 'e3/e4/e5'])),
         st.tuples(st.just('count'), st.sampled_from([-1, 1, 5])),
@@ -118,7 +118,7 @@ class Damage(SubCheck):
             return None
         rep = {
             'del-file': [('del-file', 1), ('del-file', 2)],
-            'resize': [('resize', 4, -1), ('resize', 6, 50)],
+            'resize': [('resize', 4, -1), ('resize', 6, 50), ('resize', 1, -10**6)],
             'stray': [('stray', 'new2', 'dead.val'), ('stray', 'leaf', 'stray.txt'), ('stray', 'top', 'x.tmp')],
             'emptydir': [('emptydir', 'e1/e2'), ('emptydir', 'e3/e4/e5')],
             'count': [('count', 1)],
